@@ -105,6 +105,13 @@ def build(rnd, k):
             defs[a] = ((I32,) + defs[a][0][:6], defs[a][1] or I64)
             defs[b] = ((I32,) + defs[b][0][:6], defs[b][1] or I32)
             pairs.append((a, b))
+    # twins: functions whose locals and code are BYTE-IDENTICAL but whose value types differ (only polymorphic instructions - local.get,
+    # local.tee, select, drop - touch the typed values): each must stay its own function with its own C types
+    twins = set()
+    if rnd.random() < 0.5:
+        for t in rnd.sample(TYPES, rnd.randint(2, 4)):
+            twins.add(len(defs))
+            defs.append(((t, t, t, I32), t))
     base = n_imp
     for j, s in enumerate(defs):
         sigs.append(s)
@@ -142,6 +149,11 @@ def build(rnd, k):
 
     # bodies
     for j, (ps, res) in enumerate(defs):
+        if j in twins:
+            m.add_func(list(ps), [res], [(1, I64)],
+                       [('local.get', 0), ('local.get', 1), ('local.get', 3), ('select',), ('local.tee', 0), ('local.get', 2), ('local.get', 3), ('i32.const', 2), ('i32.and',), ('select',),
+                        ('nop',), ('nop',), ('local.get', 1), ('drop',), ('nop',), ('nop',)])
+            continue
         fidx = base + j
         nloc = len(ps)
         acc = nloc  # i64 local
